@@ -355,6 +355,7 @@ def main():
     ap.add_argument("--seed", type=int, default=int(os.environ.get("VERIF_SEED", "1") or 1))
     ap.add_argument("--replay")
     ap.add_argument("--keep", action="store_true")
+    ap.add_argument("--race-all", action="store_true", help="dev-time self-check of the harness: run every pass of this check under the race detector")
     ap.add_argument("--cover", action="store_true", help="record statement coverage of corebgp under this check's workload (build/cover/<prop>.out)")
     ap.add_argument("--shards", type=int, default=int(os.environ.get("VERIF_SHARDS", "0") or 0))
     a = ap.parse_args()
@@ -397,6 +398,8 @@ def main():
         tier = rp.get("tier", tier)
         passes = [p for p in passes if p["name"] == rp.get("pass", p["name"])]
 
+    if a.race_all:
+        passes = [dict(p, race=True, gomaxprocs=4) for p in passes if not p.get("env")]
     # build everything first (a build failure is never a verdict)
     bins = {}
     for p in passes:
